@@ -478,18 +478,27 @@ def _check_script(buf, ops, out_lines):
                 if limit is not None:
                     limit -= 1
         elif op == "s":
-            if res.startswith("Ok("):
-                k = noff - off
-                if k <= 0 or k % 4:
-                    return "string(): consumed %d bytes" % k
-                if limit is not None:
-                    if k // 4 > limit:
-                        return "string() consumed %d words with limit %d" % (k // 4, limit)
-                    limit -= k // 4
-                seg = buf[off:noff]
-                if 0 not in seg:
-                    return "string() Ok without NUL in the consumed words"
+            # C11: the NUL-terminated string at the offset, whole words, never past the limit or the buffer
+            if limit is not None and limit * 4 <= len(buf) - off:
+                window, by_limit = buf[off:off + limit * 4], True
             else:
+                window, by_limit = buf[off:], False
+            if 0 not in window:
+                exp_ok = False
+            else:
+                k = window.index(0)
+                exp_ok = (k // 4 + 1) * 4 <= len(window)
+            if exp_ok:
+                words = k // 4 + 1
+                txt = bytes(window[:k]).decode("ascii", "replace")
+                printable = all(0x20 <= c <= 0x7e and c not in (0x22, 0x5c) for c in window[:k])
+                if (printable and res != 'Ok("%s")' % txt) or not res.startswith("Ok(") or noff != off + 4 * words:
+                    return "string(): %s offset %d->%d, expected Ok(%r) and offset %d" % (res, off, noff, txt, off + 4 * words)
+                if limit is not None:
+                    limit -= words
+            else:
+                if res.startswith("Ok("):
+                    return "string(): %s although no complete NUL-terminated string lies in the window" % res
                 if noff != off:
                     return "failed string() moved the offset %d->%d" % (off, noff)
         elif op == "b64":
@@ -529,6 +538,9 @@ def witness(failure, ctx):
         bufs.append(([0x61, 0] * 8)[:n])
         bufs.append(([0, 0, 0, 0, 1, 0, 0, 0, 3])[:n])
         bufs.append(([0x61, 0x62, 0x63, 0, 0x64, 0x65, 0x66, 0x67, 0])[:n])
+        bufs.append(([0x6f, 0x6b, 0, 0x58, 0x72, 0x75, 0x73, 0x74, 0, 0, 0, 0])[:n])
+    bufs.append([0x6f, 0x6b, 0, 0x58, 0x72, 0x75, 0x73, 0x74, 0, 0, 0, 0])
+    bufs.append([0x6f, 0x6b, 0, 0x58, 0x72, 0x75, 0x73, 0x74, 0x21, 0x21, 0x21, 0])
     seen, uniq = set(), []
     for b in bufs:
         if tuple(b) not in seen:
